@@ -112,6 +112,9 @@ func HPasteText() {
 		return
 	}
 	vSameDigest(vDigest(cA), vDigest(cB), "c10t-paste-changes-catalog")
+	if vParam("closure", 0) == 1 {
+		vCheckClosure(cB)
+	}
 	vReach("same-catalog")
 	vObserve("same")
 }
